@@ -48,7 +48,7 @@ RTOL = 1e-12
 
 def budget(tier):
     if tier == "quick":
-        return dict(examples=300, shards=4)
+        return dict(examples=300, shards=4, time_s=2400)  # time_s: only a guard for overloaded machines
     return dict(examples=2500, shards=16)
 
 
